@@ -10,7 +10,8 @@ for d in sorted(glob.glob('/verif/seeded/*/meta.json')):
         return 'caught' if c.get('caught') else ('inconclusive' if c.get('inconclusive') else 'MISSED')
     labels=', '.join(l.split('/')[0]+'/'+l.split('/')[1][:48] for l in now.get('labels',[])[:2])
     what=' '.join(m.get('breaks',[])[:2])[:170].replace('|','/').replace('\n',' ')
-    nowst=st(now)+(' (before fix 1717b2e; superseded)' if m.get('superseded') else '')
+    sup=m.get('superseded')
+    nowst=st(now)+((' (before fix d478715; superseded)' if isinstance(sup,str) and 'd478715' in sup else ' (before fix 1717b2e; superseded)') if sup else '')
     rows.append(f"| {m['name']} | {m['property']} | {st(first)} | {nowst} | {labels} |")
 print("| seeded change | property | first run | now | assertion(s) that fire |")
 print("|---|---|---|---|---|")
